@@ -1065,7 +1065,7 @@ func Scrap(w *load.World, c *core.Collector) {
 						v = core.Violation
 						d = "Commit of a failed transaction does not perform " + name
 					} else if name == "scrapped=true" {
-						if ok, at := mustPassFromEdge(ssax.Edge{From: b, Succ: 0}, pred, isElemUnlock); !ok {
+						if ok, at := mustPassFromEdge(ssax.Edge{From: b, Succ: 0}, pred, isElemUnlock); !ok && !scrapLoopBefore(commit, ssax.Edge{From: b, Succ: 0}, pred, at) {
 							v = core.Violation
 							d = "Commit of a failed transaction can release the cache's write lock at " + w.At(at) + " without marking it scrapped (the mark is conditional): a transaction already waiting for that lock would be handed the aborted state"
 						}
@@ -2426,4 +2426,103 @@ func staticCallSitesIn(f, h *ssa.Function) []ssa.CallInstruction {
 		}
 	}
 	return out
+}
+
+// scrapLoopBefore: the marks are set in a loop of their own that runs, on the failed edge, over
+// the same collection as the loop that unlocks and before it: every element the second loop
+// unlocks was marked by the first (a zero-iteration first loop means a zero-iteration second one).
+// Required: a range over writtenCaches that is only reached through the failed edge, whose every
+// iteration passes a mark, and whose header dominates the block of the unlock.
+func scrapLoopBefore(f *ssa.Function, failed ssax.Edge, isMark func(ssa.Instruction) bool, unlock ssa.Instruction) bool {
+	if unlock == nil {
+		return false
+	}
+	for _, b := range f.Blocks {
+		for _, in := range b.Instrs {
+			nx, ok := in.(*ssa.Next)
+			if !ok {
+				continue
+			}
+			rg, ok := nx.Iter.(*ssa.Range)
+			if !ok {
+				continue
+			}
+			if p, _ := ssax.Path(rg.X); !strings.Contains(p, "writtenCaches") {
+				continue
+			}
+			hdr := nx.Block()
+			if !ssax.OnlyViaEdge(failed.From, failed.Succ, hdr) || unlock.Block() == hdr {
+				continue
+			}
+			// on the failed edge every way to the unlock leads through this loop's header
+			{
+				seenB := map[*ssa.BasicBlock]bool{hdr: true}
+				var reach func(x *ssa.BasicBlock) bool
+				reach = func(x *ssa.BasicBlock) bool {
+					if x == unlock.Block() {
+						return true
+					}
+					if seenB[x] {
+						return false
+					}
+					seenB[x] = true
+					for _, s := range x.Succs {
+						if reach(s) {
+							return true
+						}
+					}
+					return false
+				}
+				if reach(failed.From.Succs[failed.Succ]) {
+					continue
+				}
+			}
+			// the unlock is not in this loop
+			if ssax.Reaches(unlock.Block(), hdr) && hdr.Dominates(unlock.Block()) {
+				inLoop1 := false
+				for _, s := range hdr.Succs {
+					if s.Dominates(unlock.Block()) && ssax.Reaches(unlock.Block(), hdr) && ssax.Reaches(s, hdr) {
+						inLoop1 = true
+					}
+				}
+				if inLoop1 {
+					continue
+				}
+			}
+			// every iteration marks: from the body entry back to the header a mark is passed
+			if len(hdr.Succs) != 2 {
+				continue
+			}
+			body := hdr.Succs[0]
+			seen := map[*ssa.BasicBlock]bool{}
+			var dfs func(x *ssa.BasicBlock) bool
+			dfs = func(x *ssa.BasicBlock) bool {
+				if x == hdr {
+					return false // came round without a mark
+				}
+				if seen[x] {
+					return true
+				}
+				seen[x] = true
+				for _, xi := range x.Instrs {
+					if isMark(xi) {
+						return true
+					}
+				}
+				if len(x.Succs) == 0 {
+					return true
+				}
+				for _, s := range x.Succs {
+					if !dfs(s) {
+						return false
+					}
+				}
+				return true
+			}
+			if dfs(body) {
+				return true
+			}
+		}
+	}
+	return false
 }
